@@ -371,6 +371,19 @@ def FT.erase (t : FT) (id : Nat) (pf : PF) : Option FT :=
   | [] => none
   | (k, v) :: _ => some { t with keys := modBucket t.keys k v (swapPop id) }
 
+/-- `FasterTrie::insert` on any key, with the source's handling of an empty one (`AITB.Gen.C20.ftEmptyKeyGuard`):
+    outer `none` = undefined behaviour (`pf.first[0]` of an empty vector), inner `none` = throws `invalid_argument` -/
+def FT.insertG (guard : Bool) (t : FT) (pf : PF) : Option (Option (FT × Nat)) :=
+  match pf with
+  | [] => if guard then some none else none
+  | _ :: _ => (t.insert pf).map some
+
+/-- `FasterTrie::erase(id, pf)` likewise: with the guard an empty key is a no-op -/
+def FT.eraseG (guard : Bool) (t : FT) (id : Nat) (pf : PF) : Option FT :=
+  match pf with
+  | [] => if guard then some t else none
+  | _ :: _ => t.erase id pf
+
 /-- body of `matchPartial`'s loop over the keys after the first -/
 def matchGo (f : List Nat) : PF → Bool
   | [] => true
@@ -492,5 +505,63 @@ structure FMF where
 def FMF.emplace (m : FMF) (pf : PF) (x : Nat) : Option FMF :=
   (m.trie.insert pf).map (fun r => ⟨r.1, m.items ++ [x]⟩)
 def FMF.filter (m : FMF) (f : List Nat) : List Nat := (m.trie.filter f).map (fun id => m.items.getD id 0)
+
+/-! #### the rest of FilterMap's interface -/
+
+/-- `FilterMap(TrieType t, ItemsContainer c)`: outer `none` = UB inside `Trie::size`; inner `none` = throws `invalid_argument`
+    (`ids_.size() != items_.size()`) -/
+def FM.ofTrie (firstBound : Bool) (t : T) (items : List Nat) : Option (Option FM) :=
+  (t.size firstBound).map (fun n => if n != items.length then none else some ⟨t, items⟩)
+def FMF.ofTrie (t : FT) (items : List Nat) : Option FMF :=
+  if t.size != items.length then none else some ⟨t, items⟩
+/-- `operator[](id)`: `items_[id]` (`none` = outside the container) -/
+def FM.get (m : FM) (id : Nat) : Option Nat := m.items[id]?
+/-- `begin() … end()` / `getContainer()`: all items in emplacement order -/
+def FM.all (m : FM) : List Nat := m.items
+/-- reading the `IndexMap` a filter returns, with bounds: `none` where an id leaves the item container -/
+def FM.filterChecked (firstBound : Bool) (m : FM) (q : PF) : Option (List (Option Nat)) :=
+  (m.trie.filter firstBound q).map (fun ids => ids.map (fun id => m.items[id]?))
+
+/-- `FilterMap(trie, items)` with the id-range test of fixes/C20-4 after the size test:
+    `for (id : ids_.filter(Factors{})) if (id >= items_.size()) throw` -/
+def FM.ofTrieChecked (firstBound : Bool) (t : T) (items : List Nat) : Option (Option FM) :=
+  (t.size firstBound).bind (fun n =>
+    if n != items.length then some none else
+      (t.getAllIds firstBound).map (fun ids => if ids.all (fun id => decide (id < items.length)) then some ⟨t, items⟩ else none))
+def FMF.ofTrieChecked (t : FT) (items : List Nat) : Option FMF :=
+  if t.size != items.length then none else
+  if (t.filter []).all (fun id => decide (id < items.length)) then some ⟨t, items⟩ else none
+
+/-! ### the library's own vocabulary for "compatible" (src/Factored/Utils/Core.cpp), used by the callers of the indexes -/
+
+/-- `match(lhsK, lhs, rhsK, rhs)`: two cursors over the ascending key lists (`i` on the longer list, `j` on the shorter one);
+    `while (j < smaller.size() && i < bigger.size())`: `bigger[i] < smaller[j]` → `++i`; `>` → `++j`; equal keys: values differ → false, else both -/
+def matchWalk : Nat → PF → PF → Bool
+  | 0, _, _ => true
+  | _ + 1, [], _ => true
+  | _ + 1, _, [] => true
+  | f + 1, (bk, bv) :: b, (sk, sv) :: s =>
+    if bk < sk then matchWalk f b ((sk, sv) :: s)
+    else if bk > sk then matchWalk f ((bk, bv) :: b) s
+    else if bv != sv then false else matchWalk f b s
+
+/-- `match(const PartialFactors & lhs, const PartialFactors & rhs)` (the shorter key list becomes `smaller`) -/
+def matchPF (l r : PF) : Bool :=
+  if l.length > r.length then matchWalk (l.length + r.length) l r else matchWalk (l.length + r.length) r l
+
+/-- `match(const Factors & lhs, const PartialFactors & rhs)`: `lhs[k] == v` for every pair of `rhs` -/
+def matchF (f : List Nat) (pf : PF) : Bool := pf.all (fun kv => f.getD kv.1 0 == kv.2)
+
+/-- `merge(const PartialFactors & lhs, const PartialFactors & rhs)`: two-cursor merge of the key lists; on a shared key the right
+    operand's pair is emitted and both cursors move; the unread tails are appended -/
+def mergePF : Nat → PF → PF → PF
+  | 0, l, r => l ++ r
+  | _ + 1, [], r => r
+  | _ + 1, l, [] => l
+  | f + 1, (lk, lv) :: l, (rk, rv) :: r =>
+    if lk < rk then (lk, lv) :: mergePF f l ((rk, rv) :: r)
+    else (rk, rv) :: mergePF f (if lk = rk then l else (lk, lv) :: l) r
+
+def mergePFs (l r : PF) : PF := mergePF (l.length + r.length) l r
 
 end AITB.Trie
